@@ -1,7 +1,7 @@
 """C06 — parsing is total: no panic on any input, errors always renderable."""
 import itertools
 
-from .. import build, framework as fw, markers, trees, textmodel
+from .. import build, framework as fw, markers, trees, textmodel, reqmodel
 from ..sexp import S, unS, dump, pretty
 
 TOKENS = [' ', '\t', ' ', 'a', 'é', '漢', '😀', '0', "'", '"', '(', ')', '==', '<', '~=', '!', ',', ';', ' and ', ' or ', ' in ', ' not ', 'and', 'or',
@@ -36,6 +36,139 @@ def marker_inputs(ctx, quick):
     return list(dict.fromkeys(out))
 
 
+RTOKENS = [' ', '\t', '\u3000', '\u00a0', '\n', '\r', 'a', 'Z', '9', 'é', '漢', '😀', '-', '_', '.', ',', ';', '#', '@', '[', ']', '(', ')', '<', '>=', '==', '~=', '!=', '!',
+           '*', "'", '"', '$', '{', '}', '${HOME}', '/', '\\', ':', '%', '+', '1.0', 'foo', '.whl', '.tar.gz', 'https://h/p', " os_name == 'a'", 'extra', ' and ', '===', '\x00']
+RPREFIXES = ['', ' ', 'foo', 'foo ', 'Foo_.-bar', 'foo-', 'foo.', 'foo[', 'foo[a', 'foo[a-', 'foo[a,', 'foo[a ', 'foo[a]', 'foo [ a , b ] ', 'foo>=1', 'foo >=1,', 'foo >= 1.0 , < 2', 'foo (', 'foo (>=1', 'foo (>=1)',
+             'foo @', 'foo @ ', 'foo @ https://h/p', 'foo @ https://h/p;', 'foo @ https://h/p#', 'foo @ https://h;', 'foo @ https://h?q#', 'foo @ https://h/p ', 'foo @ https://h/p ;', 'foo @ file:///a', 'foo @ ${HOME}', 'foo @ git+https://h/p@v1',
+             'foo ;', "foo ; os_name == 'a'", "foo ; os_name == 'a' ", "foo[a]>=1;python_version<'3.8' and", 'https://h/p', './p', '/p', 'foo.whl', 'foo.tar.gz', 'é', 'foo é']
+UPREFIXES = ['', ' ', 'https://h/p', 'https://h/p;', 'https://h/p#', 'https://h/p;[a]', 'https://h/p[', 'https://h/p[a', 'https://h/p[a]', 'https://h/p[a] ', 'https://h/p[a] ;', "https://h/p ; os_name == 'a'",
+             './p', '/p', '/p[a,b]', 'file:///a/b', 'file://localhost/a', 'foo.whl', '${HOME}/p', 'git+https://h/p@v1', 'C:\\p', '/p#[a]', '/p [a]', '/p;[a]', 'https://h/p;[a]\u3000', '/p#[a]\u3000']
+ETOKENS = [' ', '\u3000', 'a', 'B', '1', '-', '_', '.', ',', '[', ']', 'é', '😀', ';', '\n']
+EPREFIXES = ['', '[', '[a', '[a-', '[a,', '[a ', '[a]', '[ a , b', 'a', ' [a]']
+
+
+def token_inputs(ctx, prefixes, tokens, depth, keep):
+    out = []
+    for p in prefixes:
+        for k in range(0, depth + 1):
+            for t in itertools.product(tokens, repeat=k):
+                if keep.get(k, 1.0) < 1.0 and ctx.rng.random() > keep[k]:
+                    continue
+                out.append(p + ''.join(t))
+    return list(dict.fromkeys(out))
+
+
+def req_part(ctx, h, quick, ext=False):
+    """requirement-level entry points: Requirement::<VerbatimUrl>/<Url>::from_str, parse_reporter, Extras::parse, (ext) UnnamedRequirement"""
+    sess = markers.Session(h)
+    keys = markers.Keys(sess.p)
+    wd = '/work'
+    rm = reqmodel.ReqModel(sess.p, keys, wd=None)
+    rm_wd = reqmodel.ReqModel(sess.p, keys, wd=wd)
+    tag = 'ext:' if ext else ''
+    inputs = token_inputs(ctx, RPREFIXES, RTOKENS, 2, {2: (0.05 if ext else 0.12) if quick else 1.0})
+    if not quick and not ext:
+        inputs += token_inputs(ctx, RPREFIXES[::3], RTOKENS, 3, {0: 0, 1: 0, 2: 0, 3: 0.02})
+    n_req = 0
+
+    def alive(text, entry):
+        nonlocal sess, rm, rm_wd
+        a = sess.ask(['parse', S("os_name == 'probe'")])
+        if a[0] != 'ok':
+            ctx.failure('after %s(%r) every later marker operation in the process fails (interner poisoned)' % (entry, text),
+                        {'entry': entry, 'input': text, 'then': "os_name == 'probe'"}, cls='poisoned-after-panic')
+        if a[0] != 'ok' or True:
+            sess.close(); rm.close(); rm_wd.close()
+            sess = markers.Session(h)
+            rm = reqmodel.ReqModel(sess.p, keys, wd=None); rm_wd = reqmodel.ReqModel(sess.p, keys, wd=wd)
+
+    for n, text in enumerate(inputs):
+        ctx.evaluations += 1
+        n_req += 1
+        which = n % 3
+        if which == 0:
+            r, io, m = reqmodel.compare_req(ctx, sess, rm, text, True, None)
+            entry = 'Requirement::<VerbatimUrl>::from_str'
+        elif which == 1:
+            r, io, m = reqmodel.compare_req(ctx, sess, rm_wd, text, True, wd)
+            entry = 'Requirement::<VerbatimUrl>::parse_reporter'
+        else:
+            r, io, m = reqmodel.compare_req(ctx, sess, rm, text, False, None, what='Requirement<Url>')
+            entry = 'Requirement::<Url>::from_str'
+        ctx.oracle_cases += 1
+        ctx.count(tag + 'req:' + io[0] + (':' + (io[1] if isinstance(io[1], str) else io[1][0]) if io[0] == 'err' else ''))
+        ctx.nontrivial((tag, 'req', io[0], io[1] if io[0] == 'err' and isinstance(io[1], str) else None, any(ord(c) > 127 for c in text)))
+        if not reqmodel.impl_span_checks(ctx, entry, text, io):
+            alive(text, entry)
+        if n % 400 == 0:
+            rm.reset_tables(); rm_wd.reset_tables()
+    # Extras::parse
+    for text in token_inputs(ctx, EPREFIXES, ETOKENS, 2 if quick else 3, {3: 0.3}):
+        ctx.evaluations += 1
+        r = sess.ask(['extras', S(text)])
+        io = reqmodel.outcome(r)
+        ctx.oracle_cases += 1
+        ctx.count(tag + 'extras:' + io[0] + (':' + str(io[1]) if io[0] == 'err' else ''))
+        ctx.nontrivial((tag, 'extras', io[0], io[1] if io[0] == 'err' and isinstance(io[1], str) else None, any(ord(c) > 127 for c in text)))
+        if not reqmodel.impl_span_checks(ctx, 'Extras::parse', text, io):
+            alive(text, 'Extras::parse')
+            continue
+        m = rm.extras(text)
+        mo = reqmodel.model_outcome(m)
+        ctx.corr_cases += 1
+        if not reqmodel.same_outcome(ctx, sess, 'Extras', text, mo, io):
+            ctx.disagreement('parse_extras_text ~ Extras::parse (outcome)', text, repr(mo), repr(io[:4]))
+        elif io[0] == 'ok' and dump(m[1]) != dump(r[1]):
+            ctx.disagreement('parse_extras_text ~ Extras::parse (names)', text, dump(m[1]), dump(r[1]))
+    # names (PackageName / ExtraName: new, from_str, serde) never panic
+    for text in token_inputs(ctx, ['', 'a', 'a-', '-a', 'A.b'], ETOKENS, 2, {}):
+        ctx.evaluations += 1
+        r = sess.ask(['name', S(text)])
+        ctx.oracle_cases += 1
+        if r[0] != 'name':
+            ctx.failure('PackageName / ExtraName construction panicked on %r' % text, {'entry': 'PackageName::new', 'input': text})
+            alive(text, 'PackageName::new')
+    if ext:
+        for n, text in enumerate(token_inputs(ctx, UPREFIXES, RTOKENS, 2, {2: 0.08 if quick else 0.6})):
+            ctx.evaluations += 1
+            use_wd = n % 2 == 0
+            r = sess.ask(['unnamed', S(wd) if use_wd else 'none', S(text)])
+            io = reqmodel.outcome(r)
+            entry = 'UnnamedRequirement::parse' if use_wd else 'UnnamedRequirement::from_str'
+            ctx.oracle_cases += 1
+            ctx.count('unnamed:' + io[0] + (':' + (io[1] if isinstance(io[1], str) else io[1][0]) if io[0] == 'err' else ''))
+            ctx.nontrivial(('unnamed', io[0], io[1] if io[0] == 'err' and isinstance(io[1], str) else None, any(ord(c) > 127 for c in text)))
+            if not reqmodel.impl_span_checks(ctx, entry, text, io):
+                alive(text, entry)
+                continue
+            mdl = rm_wd if use_wd else rm
+            m = mdl.unnamed(text)
+            mo = reqmodel.model_outcome(m)
+            ctx.corr_cases += 1
+            if not reqmodel.same_outcome(ctx, sess, 'UnnamedRequirement', text, mo, io):
+                ctx.disagreement('parse_unnamed ~ UnnamedRequirement (outcome)', text, repr(mo), repr(io[:4]))
+            elif io[0] == 'ok':
+                # (ok disp given extras reg dump warnings shown contents)
+                if dump(m[1]) != dump(r[1]) or dump(m[2]) != dump(r[2]) or dump(m[3]) != dump(r[3]):
+                    ctx.disagreement('parse_unnamed ~ UnnamedRequirement (url, given, extras)', text, dump(m[1:4])[:300], dump(r[1:4])[:300])
+                try:
+                    want = trees.to_model(r[5])
+                    got = m[4] if m[4] != 'none' else 'T'
+                    if want != got:
+                        ctx.disagreement('parse_unnamed ~ UnnamedRequirement (marker diagram)', text, pretty(got)[:300], pretty(want)[:300])
+                except (trees.NotPartition, trees.Unmodelled):
+                    ctx.count('unmodelled-marker')
+                sh = mdl.show_unnamed(text, unS(r[8]) if r[8] != 'none' else None)
+                if sh[0] != 'ok' or unS(sh[1]) != unS(r[7]):
+                    ctx.disagreement('display_unnamed ~ UnnamedRequirement Display', text, unS(sh[1]) if sh[0] == 'ok' else dump(sh), unS(r[7]))
+            if n % 400 == 0:
+                rm.reset_tables(); rm_wd.reset_tables()
+    ctx.extra.setdefault('oracle_table_fills_req', 0)
+    ctx.extra['oracle_table_fills_req'] += rm.misses + rm_wd.misses
+    ctx.extra[tag + 'requirement_inputs'] = n_req
+    rm.close(); rm_wd.close(); sess.close()
+
+
 def run(ctx):
     ctx.proofs('Props/C06.v')
     build.extract_and_driver()
@@ -45,8 +178,11 @@ def run(ctx):
                          'quotes, operators, keywords, delimiters) after %d valid prefixes, plus single-character mutations of random valid markers; each through '
                          'MarkerTree::parse_reporter/from_str and MarkerExpression::from_str in batches of one process with catch_unwind; outcome (Ok | Err kind start len | '
                          'panicked) vs the extracted parser model; every error is formatted with Display and its span checked; a follow-up marker operation in the same '
-                         'process detects a poisoned interner. requirement-level entry points: see the evidence key requirement_inputs. non-trivial = distinct outcome '
-                         'classes (kind, span shape, multi-byte involved)' % (2 if quick else 3, len(TOKENS), len(PREFIXES)))
+                         'process detects a poisoned interner. requirement level: all token sequences up to length 2 (sampled at 2%s) over a %d-token alphabet after %d prefixes through '
+                         'Requirement::<VerbatimUrl>::from_str / parse_reporter / Requirement::<Url>::from_str (rotating), Extras::parse, PackageName/ExtraName constructors, and, in a '
+                         'second harness built with non-pep508-extensions, the same plus UnnamedRequirement::from_str / parse; outcome, spans, components, Display vs the extracted '
+                         'requirement model. non-trivial = distinct outcome '
+                         'classes (kind, span shape, multi-byte involved)' % (2 if quick else 3, len(TOKENS), len(PREFIXES), ', and 3' if not quick else '', len(RTOKENS), len(RPREFIXES)))
     inputs = marker_inputs(ctx, quick)
     sess = markers.Session(h)
     keys = markers.Keys(sess.p)
@@ -120,6 +256,8 @@ def run(ctx):
     tm.close()
     sess.close()
     ctx.extra['oracle_table_fills'] = tm.misses
+    req_part(ctx, h, quick, ext=False)
+    req_part(ctx, build.harness(ext=True), quick, ext=True)
     if not ctx.samples:
         ctx.sample('(none)')
     return fw.finish(ctx, 'make -C /verif/coq Props/C06.vo  (coqc, Print Assumptions under each theorem)')
